@@ -1664,16 +1664,34 @@ XalanTransformer::EnsureFunctionsInstallation::~EnsureFunctionsInstallation()
 {
     if ( !m_release)
     {
-        XalanExtensionsInstaller::uninstallGlobal(m_memoryManagement);
-        XalanEXSLTCommonFunctionsInstaller::uninstallGlobal(m_memoryManagement);
-        XalanEXSLTDynamicFunctionsInstaller::uninstallGlobal(m_memoryManagement);
-        XalanEXSLTMathFunctionsInstaller::uninstallGlobal(m_memoryManagement);
-        XalanEXSLTSetFunctionsInstaller::uninstallGlobal(m_memoryManagement);
-        XalanEXSLTStringFunctionsInstaller::uninstallGlobal(m_memoryManagement);
-        XalanEXSLTDateTimeFunctionsInstaller::uninstallGlobal(m_memoryManagement);
+        // Uninstalling builds the namespace and function names as
+        // strings, so it allocates, and this is a destructor: nothing
+        // may leave it.  A function that could not be uninstalled here
+        // is deleted with the function table when the XPath subsystem
+        // is terminated, which follows in both places where this class
+        // is used.
+        try
+        {
+            XalanExtensionsInstaller::uninstallGlobal(m_memoryManagement);
+            XalanEXSLTCommonFunctionsInstaller::uninstallGlobal(m_memoryManagement);
+            XalanEXSLTDynamicFunctionsInstaller::uninstallGlobal(m_memoryManagement);
+            XalanEXSLTMathFunctionsInstaller::uninstallGlobal(m_memoryManagement);
+            XalanEXSLTSetFunctionsInstaller::uninstallGlobal(m_memoryManagement);
+            XalanEXSLTStringFunctionsInstaller::uninstallGlobal(m_memoryManagement);
+            XalanEXSLTDateTimeFunctionsInstaller::uninstallGlobal(m_memoryManagement);
+        }
+        catch(...)
+        {
+        }
 
 #if defined(XALAN_USE_ICU)
-        XPath::uninstallFunction(XPathFunctionTable::s_formatNumber);
+        try
+        {
+            XPath::uninstallFunction(XPathFunctionTable::s_formatNumber);
+        }
+        catch(...)
+        {
+        }
 #endif
     }
 }
